@@ -114,6 +114,16 @@ func countJoinKeys(n physical.Node) int {
 	return total
 }
 
+// queries that exposed a defect on the pinned tree (findings/C04.txt)
+var corpus = []string{
+	"SELECT t.a, u.x FROM t.csv t JOIN u.csv u ON t.a = u.x",
+	"SELECT t.a, u.x FROM t.csv t JOIN u.csv u ON t.a IN (1, 2)",
+	"SELECT q.tag FROM (SELECT j.tag AS tag, unnest(j.l) AS e FROM l.json j) q",
+	"SELECT t.a, u.x FROM t.csv t JOIN u.csv u ON u.x <> 0 WHERE 10 / u.x > 1",
+	"SELECT t.b, u.y FROM t.csv t LOOKUP JOIN u.csv u ON t.a = u.x WHERE u.y > 1 AND t.b < 5",
+	"SELECT u.y FROM u.csv u WHERE u.x > 0",
+}
+
 type job struct {
 	idx      int
 	query    string
@@ -171,13 +181,16 @@ func runCases(f lib.Flags) error {
 	cwd, _ := os.Getwd()
 	defer os.Chdir(cwd)
 
-	nq := f.Cases(130, 1300)
+	nq := f.Cases(100, 1000)
 	var jobs []*job
 	for qi := 0; qi < nq; qi++ {
 		r := rng.Fork()
 		db := dbs[r.Intn(len(dbs))]
 		query, feat := genQuery(r)
 		policy := r.Intn(3)
+		if qi < len(corpus) { // the inputs of the defects found so far run first, on every seed
+			query, feat, policy = corpus[qi], map[string]bool{"corpus": true}, 0
+		}
 		for k := range feat {
 			cf.Count("feature_" + k)
 		}
@@ -255,6 +268,35 @@ func runCases(f lib.Flags) error {
 				if p != nil {
 					cf.Violation(idx, fmt.Sprintf("optimizer.Optimize panicked: %v", p), "")
 				}
+			}
+		}
+		// (1b) the rules on the intermediate plans of the Optimize loop (two rounds): RemoveUnusedGroupByNonKeyFields
+		// only fires once RemoveUnusedMapFields has pruned the map above the group-by.  Kept when the Go rule fires.
+		cur, curCoq := plan, inCoq
+		step := 0
+	rounds:
+		for round := 0; round < 2; round++ {
+			for _, name := range rules {
+				out, changed, p := applyRule(goRules[name], cur)
+				if p != nil {
+					break rounds
+				}
+				if !changed {
+					continue
+				}
+				o, oerr := coqPlan(out)
+				if oerr != nil {
+					break rounds
+				}
+				if curCoq != inCoq {
+					step++
+					iname := fmt.Sprintf("%s_i%d", pname, step)
+					cf.Preamble = append(cf.Preamble, fmt.Sprintf("Definition %s : plan := %s.", iname, curCoq))
+					cf.Count("intermediate_changed_" + name)
+					cf.Add(fmt.Sprintf("(\"%s\"%%string, %s, ObsOk %s true)", name, iname, o),
+						map[string]interface{}{"query": query, "db": filepath.Base(db.dir), "datasource_policy": policy, "rule": name, "intermediate_plan": true, "input": showPlan(cur), "observed": showPlan(out), "changed": true}, true)
+				}
+				cur, curCoq = out, o
 			}
 		}
 		jobs = append(jobs, j)
